@@ -117,15 +117,21 @@ def run_cache_form(base, form):
             m = LRU(2)
         state['m'] = m
 
+        per_key = {}
+
         async def body(fn, k):
-            i = len(trace['invocations'])
-            trace['invocations'].append([i, fn, k, sch.clock])
-            d = base['durs'][i % 4]
+            # what an invocation does depends on (function, key, how many invocations of that key came before), never on a
+            # global order: which of several equal waiters recomputes first, or which of two keys finishing at the same
+            # instant is handled first, is open to the implementation and must not change the trace
+            n = per_key[(fn, k)] = per_key.get((fn, k), -1) + 1
+            i = (n + k + 2 * fn) % 4
+            trace['invocations'].append([fn, k, n, sch.clock])
+            d = base['durs'][i]
             if d:
                 await asyncio.sleep(d)
-            if base['fail'][i % 4]:
-                raise bw.BatchError(i)
-            return ['v', fn, k, i]
+            if base['fail'][i]:
+                raise bw.BatchError(fn, k, n)
+            return ['v', fn, k, n]
 
         async def func(k):
             return await body(0, k)
@@ -140,11 +146,12 @@ def run_cache_form(base, form):
             f = [deco(func), deco(func1)]
 
         async def caller(j, c):
+            who = [c.get('fn', 0), c['key']]        # callers of one function with one key are interchangeable
             try:
                 r = await f[c.get('fn', 0)](c['key'])
-                trace['calls'].append([j, 'value', repr(r), sch.clock])
+                trace['calls'].append(who + ['value', repr(r), sch.clock])
             except Exception as e:  # noqa
-                trace['calls'].append([j, 'exc', repr(e), sch.clock])
+                trace['calls'].append(who + ['exc', repr(e), sch.clock])
         tasks = []
         for j, c in enumerate(base['calls']):
             if c['at'] > loop_time():
@@ -169,6 +176,7 @@ def run_cache_form(base, form):
         restore_policy()
         seams.restore()
     trace['calls'].sort()
+    trace['invocations'].sort()
     return trace, sch
 
 
